@@ -324,5 +324,46 @@ Reduce(a, red, skipna) ==
                  ELSE [fib |-> f, nan |-> \E q \in 1..Len(f) : f[q] = NaN]
   IN Mk(Gather(a.dims, kept), Gather(a.kinds, kept), Gather(a.labs, kept), Gather(a.aattrs, kept), a.dtype, a.attrs, term)
 
+
+(* ---------- C09: cumulative, difference, arg-extremum ---------- *)
+\* cumulative operations: axes unchanged, the cell at position p along d is fed by the fibre prefix 1..p
+Cum(a, d) ==
+  Mk(a.dims, a.kinds, a.labs, a.aattrs, a.dtype, a.attrs,
+     LAMBDA c : [fib |-> [q \in 1..c[d] |-> At(a, [c EXCEPT ![d] = q])], nan |-> FALSE])
+
+RECURSIVE DiffLabelsN(_, _, _)
+DiffLabelsN(L, scheme, n) == IF n = 0 THEN L ELSE DiffLabelsN(DiffLabels(L, scheme), scheme, n - 1)
+\* n-th difference along d: the output cell j is fed by the n+1 consecutive cells j..j+n (NumPy evaluates the
+\* n-th difference of that window); keepaxis pads n missing cells (empty window) on the side the scheme drops
+Diff(a, d, n, scheme, keepaxis) ==
+  LET L == a.labs[d]
+      m == IF Len(L) >= n THEN Len(L) - n ELSE 0                 \* number of differences
+      newL == IF keepaxis THEN L ELSE DiffLabelsN(L, scheme, n)
+      off == IF keepaxis /\ scheme = "backward" THEN n ELSE 0    \* leading padding
+      win(c) == LET j == c[d] - off IN
+                IF j < 1 \/ j > m THEN [fib |-> <<>>, nan |-> TRUE]
+                ELSE [fib |-> [q \in 1..(n + 1) |-> At(a, [c EXCEPT ![d] = j + q - 1])], nan |-> FALSE]
+  IN Mk(a.dims, [a.kinds EXCEPT ![d] = IF scheme = "centered" THEN "f" ELSE a.kinds[d]], [a.labs EXCEPT ![d] = newL],
+        a.aattrs, a.dtype, a.attrs, win)
+
+\* position (1-based) of the extremum in a fibre: a missing cell wins (NumPy), otherwise the first extreme value
+ArgPos(f, which) ==
+  IF \E q \in 1..Len(f) : f[q] = NaN THEN CHOOSE q \in 1..Len(f) : f[q] = NaN /\ \A r \in 1..q-1 : f[r] # NaN
+  ELSE CHOOSE q \in 1..Len(f) :
+         /\ \A r \in 1..Len(f) : IF which = "min" THEN f[q] <= f[r] ELSE f[q] >= f[r]
+         /\ \A r \in 1..q-1 : f[r] # f[q]
+\* argmin / argmax along dimension d: an array of *labels* of d over the remaining axes
+ArgExtAxis(a, d, which) ==
+  LET kept == SelectSeq(Idx(a.dims), LAMBDA i : i # d)
+      rank(i) == Cardinality({k \in 1..i : k # d})
+      fibre(c) == [q \in 1..Len(a.labs[d]) |-> At(a, [i \in 1..NDim(a) |-> IF i = d THEN q ELSE c[rank(i)]])]
+  IN Mk(Gather(a.dims, kept), Gather(a.kinds, kept), Gather(a.labs, kept), Gather(a.aattrs, kept), a.kinds[d], a.attrs,
+        LAMBDA c : a.labs[d][ArgPos(fibre(c), which)])
+\* whole-array argmin / argmax: the tuple of labels of the first extremum in C order
+ArgExtAll(a, which) ==
+  LET k == ArgPos(a.cells, which)
+      c == Coords(Shape(a))[k]
+  IN [i \in 1..NDim(a) |-> a.labs[i][c[i]]]
+
 IsPerm(p, n) == Len(p) = n /\ Rng(p) = 1..n
 =============================================================================
